@@ -17,7 +17,7 @@ use vh_common::{Case, Rng, Run, brief, first_diff, fnv64, gen_content, trap};
 use wow_mpq::parallel::{extract_from_multiple_archives, extract_multiple_from_multiple_archives, process_archives_parallel, search_in_multiple_archives};
 use wow_mpq::single_archive_parallel::{ParallelArchive, ParallelConfig, extract_with_config};
 use wow_mpq::verif_hooks::{TaskEvent, TaskGuard, trace_start, trace_take};
-use wow_mpq::{Archive, ArchiveBuilder, Error, ListfileOption};
+use wow_mpq::{Archive, ArchiveBuilder, AttributesOption, Error, FormatVersion, ListfileOption};
 
 // ------------------------------------------------------------------ fixtures
 
@@ -87,6 +87,15 @@ fn build_fix(dir: &Path, tag: &str, files: Vec<Pending>) -> Result<Fix, String> 
         ListfileOption::Generate
     };
     let mut b = ArchiveBuilder::new().listfile_option(lf);
+    // the version family: "for every archive" — later format versions (extended block table, HET/BET tables, V4 digests),
+    // sector checksums + an (attributes) file, the smallest (512-byte) and other non-default sector sizes
+    b = match tag {
+        "V2" => b.version(FormatVersion::V2).attributes_option(AttributesOption::GenerateCrc32).block_size(0),
+        "V3" => b.version(FormatVersion::V3).attributes_option(AttributesOption::GenerateCrc32).block_size(3),
+        "V4" => b.version(FormatVersion::V4).attributes_option(AttributesOption::GenerateCrc32).block_size(0),
+        "V4p" => b.version(FormatVersion::V4).block_size(7),
+        _ => b,
+    };
     for f in &files {
         b = match f.enc {
             0 => b.add_file_data_with_options(f.data.clone(), &f.name, f.method, false, 0),
@@ -332,12 +341,20 @@ impl Bat {
 // "every batch size": callers pass usize::MAX (or another huge value) to mean "everything in one batch"
 const BATCHES: [Bat; 10] = [Bat::F(1), Bat::F(2), Bat::F(9), Bat::F(10), Bat::F(11), Bat::Nm1, Bat::N, Bat::Np1, Bat::F(1 << 40), Bat::F(usize::MAX)];
 const THREADS: [usize; 6] = [1, 2, 3, 7, 16, 32];
+/// Thread-axis value "ParallelConfig.num_threads = Some(0)": rayon reads 0 as "pick the number yourself", so the call is the
+/// same request as with None and must answer like it (only extract_with_config has the parameter).
+const T_ZERO: usize = usize::MAX;
+const VERSIONED: [&str; 4] = ["V2", "V3", "V4", "V4p"];
+
+fn tlabel(t: usize) -> String {
+    if t == T_ZERO { "some0".into() } else { format!("{t}") }
+}
 
 #[derive(Clone, Debug)]
 struct Spec {
     api: Api,
     fix: &'static str,   // archive tag, or the archive-list shape for the multi-archive helpers
-    threads: usize,      // 0 = whatever pool the library picks by default
+    threads: usize,      // 0 = whatever pool the library picks by default (None); T_ZERO = Some(0)
     bat: Bat,
     shape: &'static str, // request shape / predicate / name selection
     skip: bool,
@@ -458,6 +475,49 @@ fn plan(thorough: bool) -> Vec<Spec> {
             v.push(Spec { api: Api::Efp, fix: "U", threads: t, bat: Bat::NA, shape, skip: false, light: false });
             v.push(Spec { api: Api::Pfp, fix: "U", threads: t, bat: Bat::NA, shape, skip: false, light: false });
             v.push(Spec { api: Api::Efb, fix: "U", threads: t, bat: Bat::F(5), shape, skip: false, light: false });
+        }
+    }
+    // the version family (V2 / V3 / V4 with sector checksums and an attributes file, 512-byte / 4 KiB sectors; V4 with 64 KiB
+    // sectors and no checksums) through every single-archive interface
+    for fix in VERSIONED {
+        for shape in ["all", "shuffled", "dup:17", "miss-middle:40", "spellings"] {
+            for skip in [false, true] {
+                for t in some_threads(1) {
+                    v.push(Spec { api: Api::Ewc, fix, threads: t, bat: Bat::NA, shape, skip, light: false });
+                }
+            }
+        }
+        for t in some_threads(1) {
+            v.push(Spec { api: Api::Efp, fix, threads: t, bat: Bat::NA, shape: "all", skip: false, light: false });
+            v.push(Spec { api: Api::Efp, fix, threads: t, bat: Bat::NA, shape: "alt2:40", skip: false, light: false });
+            v.push(Spec { api: Api::Efb, fix, threads: t, bat: Bat::F(5), shape: "all", skip: false, light: false });
+            v.push(Spec { api: Api::Pfp, fix, threads: t, bat: Bat::NA, shape: "shuffled", skip: false, light: false });
+            v.push(Spec { api: Api::Emp, fix, threads: t, bat: Bat::NA, shape: "pred-all", skip: false, light: false });
+            v.push(Spec { api: Api::Emp, fix, threads: t, bat: Bat::NA, shape: "pred-specials", skip: false, light: false });
+        }
+    }
+    for (fix, bat) in [("V4", Bat::F(10)), ("V2", Bat::F(9))] {
+        for skip in [false, true] {
+            for t in some_threads(1) {
+                v.push(Spec { api: Api::Ewc, fix, threads: t, bat, shape: if skip { "miss-middle:1001" } else { "cycle:1001" }, skip, light: true });
+            }
+        }
+    }
+    // num_threads = Some(0) on all three code paths of extract_with_config (<= 1000 names, > 1000, > 5000)
+    for shape in ["empty", "single", "all", "dup:17", "miss-middle:40"] {
+        for skip in [false, true] {
+            v.push(Spec { api: Api::Ewc, fix: "S", threads: T_ZERO, bat: Bat::NA, shape, skip, light: false });
+        }
+    }
+    for (fix, shape, bats) in [("M", "first:1001", &[Bat::F(10), Bat::F(1)][..]), ("M", "miss-middle:1001", &[Bat::F(10)][..]), ("S", "cycle:5001", &[Bat::F(10), Bat::F(1), Bat::N][..]), ("S", "miss-middle:5001", &[Bat::F(10)][..])] {
+        for (bi, &bat) in bats.iter().enumerate() {
+            // quick: one batch size per request, and one 5001-name request
+            if !thorough && (bi > 0 || shape == "miss-middle:5001") {
+                continue;
+            }
+            for skip in [false, true] {
+                v.push(Spec { api: Api::Ewc, fix, threads: T_ZERO, bat, shape, skip, light: true });
+            }
         }
     }
     // C. ParallelArchive::extract_files_parallel
@@ -805,6 +865,7 @@ struct Stats {
 fn trange(t: usize) -> &'static str {
     match t {
         0 => "t-default",
+        T_ZERO => "t-some0",
         1 => "t1",
         2..=3 => "t2-3",
         _ => "t7-32",
@@ -879,9 +940,9 @@ fn pairs_to_outcome(r: Result<Vec<(String, Vec<u8>)>, Error>) -> Outcome {
 fn exec(c: &mut Case, sp: &Spec, pr: &Prep, fixes: &mut [Fix], rng: &mut Rng, repeats: usize, st: &mut Stats) {
     let api = sp.api.name();
     let path = pr.path;
-    let mut ctx = json!({"archive": sp.fix, "threads": sp.threads, "batch": sp.bat.label(), "shape": sp.shape, "skip_errors": sp.skip});
+    let mut ctx = json!({"archive": sp.fix, "threads": tlabel(sp.threads), "batch": sp.bat.label(), "shape": sp.shape, "skip_errors": sp.skip});
     // the library's extract_with_config builds its own pool; every other interface runs in the ambient pool
-    let pool = if sp.threads > 0 && sp.api != Api::Ewc {
+    let pool = if sp.threads > 0 && sp.threads != T_ZERO && sp.api != Api::Ewc {
         match rayon::ThreadPoolBuilder::new().num_threads(sp.threads).build() {
             Ok(p) => Some(p),
             Err(e) => {
@@ -892,7 +953,7 @@ fn exec(c: &mut Case, sp: &Spec, pr: &Prep, fixes: &mut [Fix], rng: &mut Rng, re
     } else {
         None
     };
-    let threads_eff = if sp.threads > 0 { sp.threads } else { rayon::current_num_threads() };
+    let threads_eff = if sp.threads > 0 && sp.threads != T_ZERO { sp.threads } else { rayon::current_num_threads() };
 
     // ---- expectation (sequential, computed before any parallel call)
     let mut exp: Vec<Exp> = Vec::new();
@@ -1003,7 +1064,7 @@ fn exec(c: &mut Case, sp: &Spec, pr: &Prep, fixes: &mut [Fix], rng: &mut Rng, re
         let res: Result<Outcome, vh_common::PanicInfo> = trap(|| match sp.api {
             Api::Ewc => {
                 let mut cfg = ParallelConfig::default();
-                cfg.num_threads = if sp.threads > 0 { Some(sp.threads) } else { None };
+                cfg.num_threads = if sp.threads == T_ZERO { Some(0) } else if sp.threads > 0 { Some(sp.threads) } else { None };
                 cfg.batch_size = batch;
                 cfg.skip_errors = sp.skip;
                 match extract_with_config(&fixes[pr.fix].path, &refs, cfg) {
@@ -1091,6 +1152,12 @@ fn exec(c: &mut Case, sp: &Spec, pr: &Prep, fixes: &mut [Fix], rng: &mut Rng, re
         let ev = trace_take();
         c.count("calls", 1);
         c.count(&format!("calls|{api}|{path}"), 1);
+        if sp.threads == T_ZERO {
+            c.count(&format!("calls_with_num_threads_some0|{path}"), 1);
+        }
+        if VERSIONED.contains(&sp.fix) {
+            c.count(&format!("calls_on_versioned_fixture|{}", sp.fix), 1);
+        }
         let out = match res {
             Ok(o) => o,
             Err(p) => {
@@ -1301,6 +1368,15 @@ fn main() {
         }
         todo.push(("U".into(), u));
     }
+    for (k, tag) in VERSIONED.iter().enumerate() {
+        // (own generator state each: the other fixtures stay what they were)
+        let mut vrng = Rng::for_case(run.args.seed, 0xC09, 20 + k as u64);
+        let mut fs = files_small(&mut vrng);
+        for f in fs.iter_mut() {
+            f.name = format!("{}\\{}", tag.to_ascii_lowercase(), f.name);
+        }
+        todo.push((tag.to_string(), fs));
+    }
     if thorough {
         todo.push(("L".into(), files_many(&mut frng, 5200, "L")));
     }
@@ -1325,6 +1401,12 @@ fn main() {
         run.extra("baseline_files_equal_to_builder_input", json!(eq));
         run.extra("baseline_files_differing_from_builder_input", json!(ne));
         run.extra("fixture_archives", json!(fixes.iter().map(|f| format!("{}:{} files", f.tag, f.names.len())).collect::<Vec<_>>()));
+        let versioned: Vec<String> = fixes.iter().filter(|f| VERSIONED.contains(&f.tag.as_str())).map(|f| {
+            let h = f.seq.header();
+            let info = f.base.values().filter(|e| e.is_err()).count();
+            format!("{}: format {:?}, sector size {} bytes, {} members, {} of them fail in the sequential reader, listing has {} names", f.tag, h.format_version, 512u64 << h.block_size, f.names.len(), info, f.listing.len())
+        }).collect();
+        run.extra("versioned_fixtures", json!(versioned));
         if let Some(d) = fixes.iter().find(|f| f.tag == "D") {
             let show = |n: &str| match d.base.get(n) { Some(Exp::Err(v)) => format!("Err({v})"), Some(Exp::Ok(b)) => format!("Ok({} bytes)", b.len()), None => "?".into() };
             run.extra("damaged_fixture_sequential_answers", json!({DMG_MULTI: show(DMG_MULTI), DMG_AFTER: show(DMG_AFTER), DMG_EOF: show(DMG_EOF)}));
@@ -1354,9 +1436,9 @@ fn main() {
         }
         let mut rng = run.rng(idx, 0);
         let pr = prepare(sp, &fixes, &mut rng);
-        let class = format!("{}|{}|{}|t{}|b{}|{}|skip{}", sp.api.name(), pr.path, sp.fix, sp.threads, sp.bat.label(), sp.shape, sp.skip as u8);
+        let class = format!("{}|{}|{}|t{}|b{}|{}|skip{}", sp.api.name(), pr.path, sp.fix, tlabel(sp.threads), sp.bat.label(), sp.shape, sp.skip as u8);
         let missing_pos: Vec<usize> = pr.req.iter().enumerate().filter(|(_, n)| n.starts_with(MISSING_PREFIX)).map(|(i, _)| i).take(6).collect();
-        let desc = json!({"interface": sp.api.name(), "path": pr.path, "archive_or_list": sp.fix, "threads": sp.threads, "batch": sp.bat.label(), "shape": sp.shape, "skip_errors": sp.skip,
+        let desc = json!({"interface": sp.api.name(), "path": pr.path, "archive_or_list": sp.fix, "threads": tlabel(sp.threads), "batch": sp.bat.label(), "shape": sp.shape, "skip_errors": sp.skip,
             "request_len": pr.req.len(), "request_head": pr.req.iter().take(4).collect::<Vec<_>>(), "missing_positions_head": missing_pos, "asked_of_each_archive": pr.ask,
             "repeats": if pr.req.len() > 5000 { repeats_heavy } else if sp.light { repeats_light } else { repeats }});
         let r = if pr.req.len() > 5000 { repeats_heavy } else if sp.light { repeats_light } else { repeats };
@@ -1773,6 +1855,181 @@ fn main() {
                     if errs == 0 {
                         c.count("starved_calls_where_the_limit_did_not_bite", 1);
                     }
+                }
+            }
+        });
+    }
+    // M. ParallelArchive::read_file_with_new_handle called directly ("the core method that enables parallel reads"): N user
+    // threads (plain std threads, no pool) share one Arc<ParallelArchive>; each walks its own request list — duplicates and
+    // never-added names included — and keeps one result per name. Slot by slot that is what a sequential reader answers.
+    let direct_base = starve_base + 4;
+    let direct_specs: [(&str, usize, &str); 8] = [("S", 2, "own"), ("S", 8, "own"), ("S", 16, "same"), ("U", 4, "own"), ("M", 8, "own"), ("V4", 8, "own"), ("V2", 4, "same"), ("V3", 3, "own")];
+    for (di, &(tag, nthreads, lists)) in direct_specs.iter().enumerate() {
+        let idx = direct_base + di as u64;
+        if !run.want(idx) || (run.args.only.is_none() && mix(idx) % stride != 0) {
+            continue;
+        }
+        let mut rng = run.rng(idx, 0);
+        let fi = fixes.iter().position(|f| f.tag == tag).unwrap_or_else(|| panic!("harness: no fixture {tag}"));
+        let per_thread = if tag == "M" { 150 } else { 60 };
+        // request lists: a window of the shuffled names, the first three names repeated further down, never-added names at
+        // the front / in the middle / at the end; "same" = every thread walks the identical list
+        let mut shuffled = fixes[fi].names.clone();
+        rng.shuffle(&mut shuffled);
+        let mut reqs: Vec<Vec<String>> = Vec::new();
+        for t in 0..nthreads {
+            let start = if lists == "same" { 0 } else { t * 17 };
+            let mut r: Vec<String> = (0..per_thread).map(|i| shuffled[(start + i) % shuffled.len()].clone()).collect();
+            for k in 0..3 {
+                let at = per_thread / 2 + 5 * k;
+                r[at] = r[k].clone();
+            }
+            let miss_at = match (if lists == "same" { 1 } else { t }) % 4 { 0 => vec![0], 1 => vec![per_thread / 3], 2 => vec![per_thread - 1], _ => vec![2, per_thread / 3, per_thread - 2] };
+            for m in miss_at {
+                r[m] = missing_name(200 + m % 3);
+            }
+            reqs.push(r);
+        }
+        let exps: Vec<Vec<Exp>> = reqs.iter().map(|r| r.iter().map(|n| fixes[fi].expect(n)).collect()).collect();
+        let path = fixes[fi].path.clone();
+        let reps = if thorough { 15 } else { 3 };
+        let class = format!("read_file_with_new_handle|user-threads|{tag}|n{nthreads}|{lists}");
+        let desc = json!({"interface": "read_file_with_new_handle", "archive": tag, "user_threads": nthreads, "request_lists": lists, "names_per_thread": per_thread, "repeats": reps,
+            "request_head_of_thread_0": reqs[0].iter().take(4).collect::<Vec<_>>(), "what": "N std threads share one Arc<ParallelArchive> and call read_file_with_new_handle name by name; every slot compared with the sequential baseline"});
+        run.case(idx, &class, desc, |c| {
+            let pa = match ParallelArchive::open(&path) {
+                Ok(p) => Arc::new(p),
+                Err(e) => {
+                    c.inconclusive(format!("ParallelArchive::open failed on a fixture: {e}"));
+                    return;
+                }
+            };
+            let mut schedules: BTreeSet<(u64, u64)> = BTreeSet::new();
+            let mut first: Option<Vec<u64>> = None;
+            for k in 0..reps {
+                let dseed = if k == 0 { 0 } else { rng.next_u64() | 1 };
+                let ctx = json!({"archive": tag, "user_threads": nthreads, "request_lists": lists, "repeat": k, "injected_delays": dseed != 0});
+                trace_start(dseed);
+                let barrier = Arc::new(std::sync::Barrier::new(nthreads));
+                let outs: Vec<Result<Vec<(String, SlotR)>, String>> = std::thread::scope(|sc| {
+                    let hs: Vec<_> = reqs
+                        .iter()
+                        .map(|r| {
+                            let (pa, barrier) = (pa.clone(), barrier.clone());
+                            sc.spawn(move || {
+                                barrier.wait();
+                                trap(|| r.iter().map(|n| (n.clone(), match pa.read_file_with_new_handle(n) { Ok(d) => SlotR::Ok(d), Err(e) => SlotR::Err(variant(&e)) })).collect::<Vec<_>>())
+                            })
+                        })
+                        .collect();
+                    hs.into_iter().map(|h| match h.join() { Ok(Ok(v)) => Ok(v), Ok(Err(p)) => Err(p.sig()), Err(_) => Err("thread died".to_string()) }).collect()
+                });
+                let ev = trace_take();
+                let mut digests = Vec::new();
+                for (t, o) in outs.into_iter().enumerate() {
+                    c.count("direct_handle_thread_walks", 1);
+                    match o {
+                        Err(sig) => {
+                            c.violate(format!("panic|read_file_with_new_handle|user-threads|{sig}"), format!("read_file_with_new_handle panicked on user thread {t} of {nthreads}"), json!({"ctx": ctx, "thread": t}));
+                            return;
+                        }
+                        Ok(slots) => {
+                            c.count("direct_handle_reads", slots.len() as u64);
+                            let out = Outcome::Slots(slots);
+                            digests.push(digest(&out));
+                            // judged like a call with error skipping: every name has its own slot, a failing name is an Err there
+                            check_outcome(c, "read_file_with_new_handle", "user-threads", &reqs[t], &exps[t], Some(true), &out, &ctx);
+                        }
+                    }
+                }
+                match &first {
+                    None => first = Some(digests),
+                    Some(f) if *f != digests => c.violate("repeat-differs|read_file_with_new_handle|user-threads".to_string(), format!("repeat {k} of the same walks returned different results than repeat 0"), json!({"ctx": ctx})),
+                    _ => {}
+                }
+                if let Some(sd) = analyse(&ev) {
+                    c.count("task_events", ev.len() as u64);
+                    c.count("tasks_traced", sd.tasks as u64);
+                    schedules.insert((sd.completion, sd.assignment));
+                    st.max_conc = st.max_conc.max(sd.max_conc);
+                    if sd.max_conc >= 2 {
+                        c.count("direct_handle_repeats_with_overlapping_reads", 1);
+                    }
+                }
+                if !c.viol.is_empty() {
+                    return;
+                }
+            }
+            c.count("direct_handle_distinct_schedules", schedules.len() as u64);
+        });
+    }
+    // N. extract_with_config called by two user threads at the same moment on the same archive path, each with its own
+    // configuration (set through the builder-style setters threads() / batch_size() / skip_errors()): each call answers for
+    // itself, slot by slot like a sequential reader, whatever the other one is doing.
+    let pair_base = direct_base + direct_specs.len() as u64;
+    // (archive, [threads, batch, skip, request shape] of caller A, the same of caller B); threads 0 = setter not called
+    type Side = (usize, usize, bool, &'static str);
+    let pair_specs: [(&str, Side, Side); 6] = [
+        ("S", (2, 3, true, "miss-alt:40"), (7, 50, false, "rev")),
+        ("S", (0, 10, false, "all"), (0, 10, false, "all")),
+        ("S", (3, 1, false, "miss-middle:40"), (4, 2, true, "miss-dup:40")),
+        ("M", (3, 10, false, "first:1001"), (2, 7, true, "miss-middle:1001")),
+        ("M", (4, 9, true, "miss-alt:1001"), (5, 11, false, "shuffled")),
+        ("V4", (4, 5, true, "miss-first:40"), (1, 10, false, "shuffled")),
+    ];
+    for (pi, &(tag, a, b)) in pair_specs.iter().enumerate() {
+        let idx = pair_base + pi as u64;
+        if !run.want(idx) || (run.args.only.is_none() && mix(idx) % stride != 0) {
+            continue;
+        }
+        let mut rng = run.rng(idx, 0);
+        let fi = fixes.iter().position(|f| f.tag == tag).unwrap_or_else(|| panic!("harness: no fixture {tag}"));
+        let sides = [a, b];
+        let reqs: Vec<Vec<String>> = sides.iter().map(|s| build_request(s.3, &fixes[fi], &mut rng)).collect();
+        let exps: Vec<Vec<Exp>> = reqs.iter().map(|r| r.iter().map(|n| fixes[fi].expect(n)).collect()).collect();
+        let path = fixes[fi].path.clone();
+        let rounds = if thorough { 40 } else if tag == "M" { 4 } else { 8 };
+        let side_desc = |s: &Side, n: usize| json!({"threads": if s.0 == 0 { json!("unset") } else { json!(s.0) }, "batch_size": s.1, "skip_errors": s.2, "shape": s.3, "request_len": n});
+        let class = format!("extract_with_config|two-user-threads|{tag}|{}|{}", format!("t{}b{}s{}{}", a.0, a.1, a.2 as u8, a.3), format!("t{}b{}s{}{}", b.0, b.1, b.2 as u8, b.3));
+        let desc = json!({"interface": "extract_with_config", "archive": tag, "caller_a": side_desc(&a, reqs[0].len()), "caller_b": side_desc(&b, reqs[1].len()), "rounds": rounds,
+            "what": "two std threads leave a barrier and call extract_with_config on the same path with different configurations; both results compared with the sequential baseline"});
+        run.case(idx, &class, desc, |c| {
+            for round in 0..rounds {
+                let ctx = json!({"archive": tag, "round": round, "caller_a": side_desc(&a, reqs[0].len()), "caller_b": side_desc(&b, reqs[1].len())});
+                let barrier = Arc::new(std::sync::Barrier::new(2));
+                let outs: Vec<Result<Outcome, String>> = std::thread::scope(|sc| {
+                    let hs: Vec<_> = (0..2)
+                        .map(|w| {
+                            let (barrier, path, req, side) = (barrier.clone(), &path, &reqs[w], sides[w]);
+                            sc.spawn(move || {
+                                let refs: Vec<&str> = req.iter().map(|s| s.as_str()).collect();
+                                let mut cfg = ParallelConfig::new().batch_size(side.1).skip_errors(side.2);
+                                if side.0 > 0 {
+                                    cfg = cfg.threads(side.0);
+                                }
+                                barrier.wait();
+                                trap(|| match extract_with_config(path, &refs, cfg) {
+                                    Ok(v) => Outcome::Slots(v.into_iter().map(|(n, r)| (n, match r { Ok(d) => SlotR::Ok(d), Err(e) => SlotR::Err(variant(&e)) })).collect()),
+                                    Err(e) => Outcome::CallErr(e.to_string()),
+                                })
+                            })
+                        })
+                        .collect();
+                    hs.into_iter().map(|h| match h.join() { Ok(Ok(o)) => Ok(o), Ok(Err(p)) => Err(p.sig()), Err(_) => Err("thread died".to_string()) }).collect()
+                });
+                for (w, o) in outs.into_iter().enumerate() {
+                    c.count("two_caller_calls", 1);
+                    c.count(&format!("two_caller_calls|{}", if reqs[w].len() > 1000 { "batched" } else { "unbatched" }), 1);
+                    match o {
+                        Err(sig) => {
+                            c.violate(format!("panic|extract_with_config|two-user-threads|{sig}"), format!("extract_with_config panicked in caller {} while another thread was calling it on the same archive", ["A", "B"][w]), json!({"ctx": ctx}));
+                            return;
+                        }
+                        Ok(out) => check_outcome(c, "extract_with_config", "two-user-threads", &reqs[w], &exps[w], Some(sides[w].2), &out, &ctx),
+                    }
+                }
+                if !c.viol.is_empty() {
+                    return;
                 }
             }
         });
